@@ -47,16 +47,20 @@ pub struct Case {
 struct Fin {
   count: Arc<AtomicUsize>,
   stamp: Arc<AtomicU64>,
+  /// stamp at the first entry into the callback
+  entry: Arc<AtomicU64>,
 }
 
 impl Fin {
   fn new() -> Self {
-    Fin { count: Arc::new(AtomicUsize::new(0)), stamp: Arc::new(AtomicU64::new(u64::MAX)) }
+    Fin { count: Arc::new(AtomicUsize::new(0)), stamp: Arc::new(AtomicU64::new(u64::MAX)), entry: Arc::new(AtomicU64::new(u64::MAX)) }
   }
   fn callback(&self) -> impl FnMut() + Send + Clone + 'static {
     let c = self.count.clone();
     let s = self.stamp.clone();
+    let e = self.entry.clone();
     move || {
+      let _ = e.compare_exchange(u64::MAX, shared().stamp(), SeqCst, SeqCst);
       harness_yield("finalizer");
       c.fetch_add(1, SeqCst);
       s.store(shared().stamp(), SeqCst);
@@ -80,7 +84,7 @@ impl Scenario for C15Des {
   fn components(&self) -> (&'static [&'static str], &'static [&'static str]) {
     (&["ops/finalize.rs (FinalizeOp, FinalizeOpThreads, FinalizerObserver, FinalizerSubscription)", "Subject/SubjectThreads", "SubscriptionGuard"], &[])
   }
-  fn generate(&self, rng: &mut Rng, _tier: Tier) -> Value {
+  fn generate(&self, rng: &mut Rng, tier: Tier) -> Value {
     let src = match rng.below(7) {
       0 => Src::ColdSync(rng.below(3)),
       1 => Src::ColdErr,
@@ -88,7 +92,8 @@ impl Scenario for C15Des {
       _ => Src::Hot,
     };
     let mut trigs = Vec::new();
-    for _ in 0..rng.range(0, 7) {
+    let deep = deepen(rng, tier);
+    for _ in 0..rng.range(0, 7 * deep) {
       trigs.push(match rng.weighted(&[3, 2, 2, 2, 1, if matches!(src, Src::IntervalTake(_)) { 4 } else { 0 }]) {
         0 => Trig::Next,
         1 => Trig::Complete,
@@ -377,6 +382,14 @@ impl Scenario for C15Threads {
         rule: if c > 1 { "c15.more-than-once" } else { "c15.not-run" }.into(),
         site: site.clone(),
         detail: format!("threads {:?} (0 complete, 1 error, 2 unsubscribe) all returned; finalizer ran {} times", case.threads, c),
+      });
+    } else if let Some(r) = log.records().iter().find(|r| r.seq > fin.entry.load(SeqCst)) {
+      // "right after the first of those events, never before it": once the
+      // callback has started, the subscription must be over for the subscriber
+      violation = Some(Violation {
+        rule: "c15.notification-after-finalizer".into(),
+        site: site.clone(),
+        detail: format!("threads {:?} (0 complete, 1 error, 2 unsubscribe): {} reached the subscriber (stamp {}) after the finalizer had started (stamp {})", case.threads, fmt_ev(&r.ev), r.seq, fin.entry.load(SeqCst)),
       });
     }
     let mut resolved = case.clone();
